@@ -20,10 +20,37 @@ MOD = 'hv.c07'
 
 
 # ------------------------------------------------------------------------------- number level
+_TOK_RNG = [None]
+
+
 def _num_tok(v):
+    """A script that leaves the value v on the stack.  The same value is reached by different routes (reduced,
+    unreduced with a common factor or a negative denominator, as a sum that cancels, as a product with zero, NaN
+    from different constructions): comparison and equality must not depend on the route."""
+    rng = _TOK_RNG[0]
     if v is None:
+        r = rng.random() if rng else 1.0
+        if r < 0.25:
+            return '%s B+0 nfrombig' % N.limbs_tok(rng.choice([1, 5, -3]))
+        if r < 0.4:
+            return 'nzero nflip'
+        if r < 0.5:
+            return 'nnan nneg'
         return 'nnan'
-    return '%s %s nfrombig' % (N.limbs_tok(v.numerator), N.limbs_tok(v.denominator))
+    p, q = v.numerator, v.denominator
+    r = rng.random() if rng else 1.0
+    if r < 0.35:
+        k = rng.choice([2, 3, -1, -2, 6, 2 ** 32, -(2 ** 32 - 1), 10 ** 9 + 7])
+        return '%s %s nfrombig' % (N.limbs_tok(p * k), N.limbs_tok(q * k))
+    if r < 0.5:
+        # v = (v - w) + w
+        w = Fraction(rng.randint(-9, 9), rng.choice([1, 2, 3, 4]))
+        a = v - w
+        return '%s %s nfrombig %s %s nfrombig nadd' % (N.limbs_tok(a.numerator), N.limbs_tok(a.denominator), N.limbs_tok(w.numerator), N.limbs_tok(w.denominator))
+    if r < 0.58 and v == 0:
+        w = Fraction(rng.randint(-9, 9), rng.choice([2, 3, 4]))
+        return 'nzero %s %s nfrombig nmul' % (N.limbs_tok(w.numerator), N.limbs_tok(w.denominator))
+    return '%s %s nfrombig' % (N.limbs_tok(p), N.limbs_tok(q))
 
 
 def _rand_frac(rng, maxl):
@@ -40,8 +67,11 @@ def _rand_frac(rng, maxl):
 def gen_cases(rng, n, tier):
     maxl = 3 if tier == 'quick' else 5
     out = []
+    _TOK_RNG[0] = rng
     for _ in range(n):
         a = _rand_frac(rng, maxl)
+        if rng.random() < 0.08:
+            a = Fraction(0)
         k = rng.random()
         if a is None or k < 0.3:
             b = _rand_frac(rng, maxl)
